@@ -126,6 +126,11 @@ package contentstream
 //@   requires pinv(p)
 //@   ensures pinv(p) && same(p.data, old(p.data)) && p.pos >= old(p.pos)
 //@   ensures progress: !err && old(p.pos) < len(p.data) ==> p.pos > old(p.pos)
+//@   ensures grouping: !err ==> (same(p.ops, old(p.ops)) && same(p.operands, old(p.operands)))
+//@            || (same(p.ops, old(p.ops)) && len(p.operands) == len(old(p.operands)) + 1 && (forall k int :: {p.operands[k]} 0 <= k && k < len(old(p.operands)) ==> p.operands[k] == old(p.operands)[k]))
+//@            || (len(p.ops) == len(old(p.ops)) + 1 && len(p.operands) == 0 && len(p.ops[len(old(p.ops))].Operands) == len(old(p.operands))
+//@                && (forall k int :: {p.ops[len(old(p.ops))].Operands[k]} 0 <= k && k < len(old(p.operands)) ==> p.ops[len(old(p.ops))].Operands[k] == old(p.operands)[k])
+//@                && (forall k int :: {p.ops[k]} 0 <= k && k < len(old(p.ops)) ==> p.ops[k] == old(p.ops)[k]))
 
 //@ func (*Parser) Parse results (ops, err)
 //@   property C02, C03
